@@ -135,9 +135,13 @@ def run(ctx, progs):
     ctx.rule("O1", "closure of each O(1) entry: no loop/recursion, no bulk move, no unclassified storage-mutating callee")
     ctx.rule("O2", "functions with a bulk-move site == reviewed table; make_contiguous rotates only conditionally")
     ctx.assumptions.append("F6 (make_contiguous rotates contiguous contents that end at the array end) is a known, documented defect outside this check's reach")
+    ctx.rule("KIND1", "index-kind inference: physical positions and logical indices/lengths are never compared, and never stand in for each other")
     for cfg, prog in progs.items():
         o1(ctx, prog, cfg)
         o2(ctx, prog, cfg)
+        from .. import kinds
+
+        kinds.run(ctx, prog, cfg, only=lambda s: s in ("CircularBuffer::remove", "<Drain<N, T> as Drop>::drop", "CircularBuffer::make_contiguous", "CircularBuffer::swap", "CircularBuffer::swap_remove_back", "CircularBuffer::swap_remove_front"))
         from .. import shapes
 
         shapes.viewcmp1(ctx, prog, cfg, groups=[["CircularBuffer::as_slices", "CircularBuffer::as_mut_slices", "CircularBuffer::make_contiguous"]])
